@@ -331,6 +331,21 @@ def unary_cases(acc, dom, pat, t1, k, names=None):
         o = Factor.zeros(f.domain)
         f.copy(out=o)
         cmp_tables(o, set(t1), T, 'copy(out=) on %s' % (t1,), fails)
+        # the unary operations on a factor whose array is a strided VIEW (as returned by transpose / project in another order)
+        if len(t1) >= 2:
+            fv = f.transpose(tuple(reversed(t1)))
+            ops_v = [('copy', fv.copy(), lambda v: v)]
+            if kind in ('signed', 'positive'):
+                ops_v += [('*2', fv * 2.0, lambda v: 2.0 * v), ('+1', fv + 1.0, lambda v: v + 1.0)]
+            for nm, got_v, fn_v in ops_v:
+                cmp_tables(got_v, set(t1), {a: fn_v(v) for a, v in T.items()}, '%s on the transposed view of %s' % (nm, t1), fails)
+            ov = Factor.zeros(fv.domain)
+            fv.copy(out=ov)
+            cmp_tables(ov, set(t1), T, 'copy(out=) on the transposed view of %s' % (t1,), fails)
+            dvv = fv.datavector()
+            if not np.array_equal(dvv, np.asarray(fv.values).flatten(), equal_nan=True):
+                fails.append('datavector() of a transposed view is not its row-major flattening')
+            acc.evals += 5
         dv = f.datavector()
         if dv.shape != (f.domain.size(),) or not np.array_equal(dv, np.asarray(f.values).flatten(), equal_nan=True):
             fails.append('datavector() is not the row-major flattening')
@@ -409,6 +424,21 @@ def cliquevector_cases(acc, dom, k):
                     else:
                         cmp_tables(base[cl], set(cl), T1[cl], 'combine(%r) must leave %r alone' % (sub, cl), fails)
                 acc.evals += 1
+        # the second vector holds the same cliques in another insertion order: cliques are paired by key, never by position
+        if len(fam) >= 2:
+            v2r = CliqueVector({cl: v2[cl] for cl in reversed(fam)})
+            for name, got, fn in [('+ (other in reversed insertion order)', v1 + v2r, lambda a, b: a + b), ('- (other in reversed insertion order)', v1 - v2r, lambda a, b: a - b)]:
+                if set(got.keys()) != set(fam):
+                    fails.append('CliqueVector %s: keys %r' % (name, list(got.keys())))
+                    continue
+                for cl in fam:
+                    if set(got[cl].domain.attrs) != set(cl):
+                        fails.append('CliqueVector %s: factor at %r has attributes %r' % (name, cl, got[cl].domain.attrs))
+                    else:
+                        cmp_tables(got[cl], set(cl), {a: fn(T1[cl][a], T2[cl][a]) for a in T1[cl]}, 'CliqueVector %s at %r' % (name, cl), fails, 1e-12)
+            if not same(float(v1.dot(v2r)), ed, 1e-12):
+                fails.append('CliqueVector dot with the other vector in reversed insertion order: %r expected %r' % (float(v1.dot(v2r)), ed))
+            acc.evals += 3
         # a collection populated by item assignment behaves like the constructor-built one in every operation
         va = CliqueVector({})
         for cl in fam:
